@@ -9,5 +9,7 @@ ProgsS3 == << <<S(1, "stalled")>>, <<BA("a"), BA("b"), BA("c")>>, <<CL>> >>
 ProgsSP2 == << <<S(1, "stalled")>>, <<S(2, "prompt")>>, <<BA("a"), BA("b")>>, <<CL>> >>
 ProgsSP3 == << <<S(1, "stalled")>>, <<S(2, "prompt")>>, <<BA("a"), BA("b"), BA("c")>>, <<CL>> >>
 ProgsSPt == << <<S(1, "stalled"), S(2, "prompt")>>, <<BA("a"), BA("b"), BA("a")>>, <<CL>> >>
+(* one subscriber (its context may end at any time, also before Subscribe runs), one value, one Close *)
+ProgsP1 == << <<S(1, "prompt")>>, <<BA("a")>>, <<CL>> >>
 ProgsTrace == << <<>>, <<>>, <<>>, <<>> >>      \* trace validation: up to 4 clients, their operations come from the trace
 =============================================================================
